@@ -35,7 +35,7 @@ TrEnc == IsEvent("enc") /\ \E c \in Callers : cl[c].ep = E.ep /\ sctr = E.ctr /\
 TrWr == /\ IsEvent("wr")
         /\ \E c \in Callers : cl[c].ln = E.n /\ WrOk(c) /\ (E.open <=> links'[E.n].rc = links[E.n].rc + 1)
 TrRd == IsEvent("rd") /\ \E c \in Callers, k \in 0..40 : cl[c].ln = E.n /\ RdOk(c, E.kind, E.more, k)
-TrDec == IsEvent("dec") /\ \E c \in Callers : cl[c].ep = E.ep /\ rctr = E.ctr /\ (E.ok <=> DecOk(c)) /\ Decrypt(c)
+TrDec == IsEvent("dec") /\ \E c \in Callers : cl[c].ep = E.ep /\ rctr = E.ctr /\ (E.ok <=> DecOk(c)) /\ \E chk \in BOOLEAN, k \in RestoreReqs : Decrypt(c, chk, k)
 TrGattErr == IsEvent("gatt_err") /\ \E c \in Callers : cl[c].ln = E.n /\ GattErr(c, E.drop)
 TrDrop == IsEvent("drop") /\ Drop(E.n)
 TrDiscReq == /\ IsEvent("disc_req")
@@ -57,10 +57,10 @@ TrEnd == /\ IsEvent("end") /\ Quiescent /\ Visible /\ UNCHANGED vars
 \* unobservable steps of the library
 Silent ==
     /\ \E c \in Callers :
-          \/ OpGranted(c) \/ Start(c) \/ CnGranted(c) \/ (ConnReq(c) /\ ~IssuesConnect(c)) \/ ConnDone(c)
+          \/ OpGranted(c) \/ Start(c) \/ StartShut(c, TRUE) \/ StartShut(c, FALSE) \/ CnGranted(c) \/ (ConnReq(c) /\ ~IssuesConnect(c)) \/ ConnDone(c)
           \/ PvNoLink(c) \/ PvSkip(c) \/ (PvM3(c) /\ ~links[cl[c].ln].up) \/ (PvInstall(c) /\ cl'[c].pc # "req") \/ PvFailed(c)
           \/ ReqStart(c) \/ WriteNext(c) \/ WrDone(c) \/ ReqFailed(c) \/ (CloseStart(c) /\ ~IssuesDisconnect(c)) \/ DiscDone(c)
-          \/ Raise(c, TRUE) \/ Raise(c, FALSE) \/ BackoffTimer(c) \/ BackoffCancelled(c) \/ Finish(c) \/ (CStart(c) /\ ~IssuesDisconnect(c))
+          \/ (\E retry, hold \in BOOLEAN : Raise(c, retry, hold)) \/ BackoffTimer(c) \/ BackoffCancelled(c) \/ Finish(c) \/ (CStart(c) /\ ~IssuesDisconnect(c))
     /\ UNCHANGED <<tid, l>>
 
 TNext == TrCall \/ TrCancel \/ TrRet \/ TrConnReq \/ TrConnRes \/ TrPvRx \/ TrPvTx \/ TrKeys \/ TrEnc \/ TrWr \/ TrRd \/ TrDec
